@@ -38,7 +38,7 @@ SHAPES_T = SHAPES_Q + [(1, 3, 3, 2), (2, 2, 3, 2), (2, 1, 1, 1), (1, 2, 4, 3), (
 
 def cells(tier, seed):
     out = []
-    reps = 1 if tier == "quick" else 4
+    reps = 1 if tier == "quick" else 6
     for ak in build.HET_KINDS:
         for (Dx, Dy, Da, Dk) in (SHAPES_Q if tier == "quick" else SHAPES_T):
             if Dx == 2 and ak in ("het_step", "het_relu"):
